@@ -53,7 +53,7 @@ class C12(Check):
         "databases with 1-3 recordings (1-3 ECU models = seeds x randomness parameters, an ECU may be recorded twice) x histories of 1-60 requests over session "
         "changes, seed/key pairs (right / wrong key), resets, reads, writes, routines, DTC reads, repeated identical requests x selection {ECU name, "
         "properties, both, none (single recording)} x replay engine {DBUDSServer direct, real DbVirtualECU command on SimNet} x database latency; the "
-        "'silent rows' configuration additionally keeps suppress-bit requests (rows without reply) and is counted separately. non-trivial = the replayed "
+        "'silent rows' configuration additionally keeps suppress-bit requests and loses drawn replies on the network (rows without reply) and is counted separately. non-trivial = the replayed "
         "history contains a state change or a repeated request with different answers; distinct = (selection, engine, sequence of reply classes)."
     )
     assumptions = [
@@ -110,7 +110,8 @@ class C12(Check):
                     op["gap"] = 2.0
             if not plan["silent"]:
                 ops = [o for o in ops if not is_silent_op(o)]
-            recs.append({"ecu": e, "ops": ops, "tag": r + 1})
+            drops = sorted(rng.sample(range(len(ops)), min(len(ops), rng.choice([0, 1, 2, 4])))) if plan["silent"] and ops else []
+            recs.append({"ecu": e, "ops": ops, "tag": r + 1, "drops": drops})
         plan["recs"] = recs
         plan["replay"] = rng.randrange(n_recs)
         plan["select"] = rng.choice(["name", "props", "both", "none"])
@@ -164,12 +165,32 @@ class C12(Check):
         holder: dict[str, Any] = {"replies": []}
         loop = world.loop
 
+        import gallia.services.uds.server as server_mod
+
+        class LossyTransport(server_mod.TCPUDSServerTransport):
+            """gallia's server loop; the reply to the next request can be lost on the way back (silent-rows configuration)."""
+
+            drop_next = False
+
+            async def handle_request(self, request_pdu: bytes) -> tuple[bytes | None, float]:
+                reply, dt = await super().handle_request(request_pdu)
+                if self.drop_next:
+                    self.drop_next = False
+                    return None, dt
+                return reply, dt
+
         async def record() -> None:
             servers = {}
+            lossy = {}
             for e in plan["ecus"]:
                 srv = RandomUDSServer(e["seed"], RandomUDSServer.RandomnessParameters(**e["params"]))
-                await world.start_vecu(srv, f"tcp://ecu:{e['port']}")
+                await srv.setup()
+                tr_ = LossyTransport(srv, TargetURI(f"tcp://ecu:{e['port']}"))
+                t_ = world.loop.create_task(tr_.run())
+                world.vecu_tasks.append(t_)
+                await asyncio.sleep(0)
                 servers[e["name"]] = srv
+                lossy[e["name"]] = tr_
             for r in recs:
                 e = plan["ecus"][r["ecu"]]
                 # a fresh ECU power-up per recording: default state
@@ -188,9 +209,11 @@ class C12(Check):
                 ecu = ECU(tr, timeout=0.5, max_retry=0)
                 ecu.db_handler = db
                 last_seed: bytes | None = None
-                for op in r["ops"]:
+                for oi, op in enumerate(r["ops"]):
                     if op.get("gap"):
                         await asyncio.sleep(op["gap"])
+                    if oi in r.get("drops", []):
+                        lossy[e["name"]].drop_next = True
                     if "dyn" in op:
                         key = last_seed if last_seed is not None else b"\x00"
                         if op["wrong"]:
